@@ -44,6 +44,8 @@ class Lab:
         with open(os.path.join(self.root, "f"), "w") as fp:
             fp.write("x")
         os.mkdir(os.path.join(self.root, "d"))
+        with open(os.path.join(self.root, "d", "g"), "w") as fp:
+            fp.write("y")
         self.cwd = os.getcwd()
 
     def run_case(self, f, v):
